@@ -403,6 +403,10 @@ func (b *Builder) AddDeviate(o interface{}) *AddDeviate {
 	if !valid {
 		b.setErr(fmt.Errorf("%T does not allow deviate, only deviations do", o))
 	} else {
+		if d.Add != nil {
+			// a second "deviate add" statement continues the first
+			return d.Add
+		}
 		d.Add = &add
 	}
 	return &add
@@ -414,6 +418,10 @@ func (b *Builder) ReplaceDeviate(o interface{}) *ReplaceDeviate {
 	if !valid {
 		b.setErr(fmt.Errorf("%T does not allow deviate, only deviations do", o))
 	} else {
+		if d.Replace != nil {
+			// a second "deviate replace" statement continues the first
+			return d.Replace
+		}
 		d.Replace = &x
 	}
 	return &x
@@ -425,6 +433,10 @@ func (b *Builder) DeleteDeviate(o interface{}) *DeleteDeviate {
 	if !valid {
 		b.setErr(fmt.Errorf("%T does not allow deviate, only deviations do", o))
 	} else {
+		if d.Delete != nil {
+			// a second "deviate delete" statement continues the first
+			return d.Delete
+		}
 		d.Delete = &x
 	}
 	return &x
